@@ -143,6 +143,35 @@ def _stable(t):
     return False
 
 
+def _writes_param(callee, i):
+    """the callee uses its parameter #i as the target of an assignment / increment / non-const operator, or takes its
+    address: a by-value parameter is then a separate object and must not be replaced by the argument expression"""
+    def is_p(t):
+        t = lib_strip(t)
+        return isinstance(t, list) and t[:2] == ["param", i]
+    for cb in callee.rec.get("blocks", ()):
+        for e in cb.get("ev", ()):
+            k = e.get("e")
+            if k == "assign" and is_p(e.get("lhs")):
+                return True
+            if k == "incdec" and is_p(e.get("x")):
+                return True
+            if k == "call" and e.get("op") in ("=", "+=", "-=", "*=", "/=", "|=", "&=", "^=", "<<=", ">>=", "++", "--") and \
+                    (is_p(e.get("recv")) or (e.get("args") and is_p(e["args"][0]))):
+                return True
+            for key in TREE_KEYS:
+                v = e.get(key)
+                if v is not None and ("['u', '&', ['param', %d," % i) in str(v):
+                    return True
+    return False
+
+
+def lib_strip(t):
+    while isinstance(t, list) and t and t[0] == "cast":
+        t = t[2]
+    return t
+
+
 def _subobject(t):
     """member path without pointer chasing from a local / parameter / *this: names one fixed sub-object"""
     while isinstance(t, list) and t[:1] == ["member"]:
@@ -278,7 +307,7 @@ def _splice(rec, b, k, e, callee, n):
     cparams = callee.rec.get("params") or []
     for i, a in enumerate(args):
         ptype = (cparams[i]["t"] if i < len(cparams) else "").rstrip()
-        if _stable(a):
+        if _stable(a) and not (not ptype.endswith("&") and _writes_param(callee, i)):
             pmap[i] = a
         else:
             pv = off + 90000 + i
